@@ -125,10 +125,29 @@ Definition ex_tree : tree :=
     [(1000, [0]); (1001, [1]); (1100, [2]); (1110, [3]); (1111, [4])] ].
 Definition ex_decide (_ : tree) (_ : Markers.table) (g : nat) (p : option (nat * node)) (kids : list node) (cs : list Z)
   : list rec * nat :=
-  (map (fun c => {| asg := if Z.even c then hd 0 kids else last kids 0; prob := (3, 4); corr := Some (1, 2);
-                    runners := [(if Z.even c then last kids 0 else hd 0 kids, (1, 4), (1, 8))]; agg := one |}) cs, S g).
+  match kids with
+  | [] => ([], S g)                    (* never asked: the election skips childless parents *)
+  | _ =>
+    (map (fun c => {| asg := if Z.even c then hd 0 kids else last kids 0; prob := (3, 4); corr := Some (1, 2);
+                      runners := [(if Z.even c then last kids 0 else hd 0 kids, (1, 4), (1, 8))]; agg := one |}) cs, S g)
+  end.
 Definition ex_run := run_mapping_model Z nat (fun _ _ => true) ex_decide.
 Definition ex_tb : Markers.table := [(None, [5; 3]); (Some (1%nat, 11), [3; 7])].
+
+(* the hypotheses of c17_backfilled_path hold of it *)
+Example c17_example_tree_ok : tree_ok ex_tree /\ validate ex_tree = true.
+Proof. split; [apply tree_ok_b; vm_compute; reflexivity | vm_compute; reflexivity]. Qed.
+Example c17_example_decide_kids :
+  forall t1 tb1 g p kids cs, Forall (fun r => In (asg r) kids) (fst (ex_decide t1 tb1 g p kids cs)).
+Proof.
+  intros t1 tb1 g p kids cs. destruct kids as [|k0 kids']; [constructor|].
+  assert (Hk : k0 :: kids' <> []) by discriminate. revert Hk. generalize (k0 :: kids') as kids. intros kids Hk.
+  destruct kids as [|k1 kids'']; [congruence|]. cbn [ex_decide fst].
+  apply Forall_forall. intros r Hr. apply in_map_iff in Hr.
+  destruct Hr as (c & <- & _). cbn [asg]. destruct (Z.even c).
+  - left; reflexivity.
+  - destruct (exists_last Hk) as (l & a & E). rewrite E, last_last. apply in_or_app. right. left. reflexivity.
+Qed.
 
 Example c17_example_hypotheses :
   validate ex_tree = true /\
